@@ -93,6 +93,11 @@ impl Check for C03 {
     }
 
     fn exec(&self, rc: &ReadCase, st: &mut Stats) -> Result<ExecOk, Fail> {
+        if !rc.script.pauses.is_empty() && (rc.cfg.eof_end || !matches!(rc.driver, Driver::Streaming { .. })) {
+            // temporary end-of-file reports go with closing off and a caller that polls on (matters for shrunk cases)
+            st.inc("out_of_scope");
+            return Ok(ExecOk { nontrivial: false });
+        }
         let n = rc.input.len();
         let tr = run_reader(&rc.spec, &ReaderSetup { input: rc.input.clone(), virtual_tail: 0, cfg: &rc.cfg, script: &rc.script, driver: &rc.driver, max_steps: 4 * n + 64, keep_read_log: true });
         st.add("api_calls", tr.api_calls as u64);
